@@ -13,8 +13,8 @@ P = {
  'C01': dict(tech='Lean 4 theorem inter_flat_exact (all 25 pairs, all rational inputs) over the dispatcher generated from the source + differential correspondence',
              text='PROOF (full): for all well-formed rational flats the model of intersection — whose dispatcher is regenerated from calc/intersection.py on every run — returns a well-formed flat denoting exactly the common point set (None iff disjoint, touching gives a Point, no internal error). The model is tied to the code by the extracted dispatch table and by a seeded differential run over all 25 ordered type pairs in constructed collinear/coplanar/touching/nested positions.',
              ref='DESIGN.md §5 C01'),
- 'C02': dict(tech='Lean 4 theorems (K0, K1, five flat×polygon pairs exact) + three-way correspondence incl. exact vertex-enumeration oracle',
-             text='PROOF (partial): exactness of all five flat × ConvexPolygon pairs in both argument orders for every Valid polygon (kernels K0, K1 proved). For ConvexPolyhedron: SOUNDNESS of all five pairs in both orders (whatever is returned lies in the flat and in the body, a returned Segment is proper) and kernel K5 (membership test of a Valid polyhedron = convex hull of its vertices) are proved; COMPLETENESS (nothing of f ∩ K is missed; kernel K3) is not, and is decided per run by comparing implementation, model and an independent exact vertex enumeration on constructed degenerate positions (a test, not a proof).',
+ 'C02': dict(tech='Lean 4 theorems (K0, K1, K3, K5: all ten flat × polygon/polyhedron pairs exact in both orders) + Lean judge of the hypotheses on every body + three-way correspondence incl. exact vertex-enumeration oracle',
+             text='PROOF (full under the stated hypotheses): all five flat × ConvexPolygon pairs (every Valid polygon; kernels K0, K1) and all five flat × ConvexPolyhedron pairs (kernels K3, K5; every polyhedron meeting ExactHyp: Valid faces, closed surface, vertices on the inner side of every face, no two neighbouring faces coplanar, edge list = face edges) are proved EXACT in both argument orders: the call returns without error an object denoting exactly f ∩ hull(vertices), None iff empty, a returned Segment proper. That the body the constructor stores meets ExactHyp is judged on every body of the run by the Lean procedure exactHypB (soundness proved). The hypothesis on coplanar neighbours cannot be dropped (counterexample proved in Lean, reproduced on the implementation; outside the property, whose faces are the maximal faces). Correspondence: implementation vs model vs independent exact vertex enumeration on constructed degenerate positions.',
              ref='DESIGN.md §5 C02'),
  'C03': dict(tech='Lean 4 theorem (polygon×polygon with different carrier planes exact) + three-way correspondence against exact vertex enumeration',
              text='PROOF (partial): SOUNDNESS is proved for every polygon/polyhedron pair, including the coplanar polygon case and polyhedron × polyhedron (every point of the result lies in both operands); polygon × polygon is proved EXACT in every relative position, coplanar overlaps / nesting / touching included (kernels K0, K1, K2, K6), never raising. Completeness of plane cuts and assembly (K3, K4) for polygon × polyhedron and polyhedron × polyhedron is not proved and is decided per run by comparing implementation, executable model and exact vertex enumeration (dimension and vertex set, hence measures) on 9 templates. Rational poses only.',
@@ -44,7 +44,7 @@ P = {
              text='PROOF (full for the component formulas, all inputs): the terms computed by the CURRENT Vector/Point methods are regenerated on every run and proved equal to the textbook formulas by ring, with the three identities as corollaries and the promotion table decided. Numeric-type preservation and length/normalized/angle consistency are runtime facts decided by the correspondence over int/Fraction/Decimal/float/user type.',
              ref='DESIGN.md §5 C18'),
  'C07': dict(tech='Lean 4 theorems (move = fresh object, histories by induction, polygon validity/membership/measures under move) + history correspondence against fresh objects',
-             text='PROOF (partial only for polyhedra): for Point, Line, Plane, Segment, HalfLine the moved receiver IS the freshly constructed object (cached carrier line rebuilt), denotes the translated set, returned = receiver, move back restores it, and after ANY list of moves it equals one move by the sum (induction). ConvexPolygon: vertices translated in order, the recomputed plane keeps validity, membership / edge lengths / area invariant, histories, and returned == receiver (kernel K6: re-sorting a counter-clockwise cycle is the identity). ConvexPolyhedron: structure of a successful move only. Decided per run: histories of 1-6 moves with deepcopy interleaved, receiver and returned object against a fresh object over membership, intersection (incl. probes through the old position and coplanar probes), distance, angle, measures, ==, hash.',
+             text='PROOF (partial only for non-membership queries of polyhedra): for Point, Line, Plane, Segment, HalfLine the moved receiver IS the freshly constructed object (cached carrier line rebuilt), denotes the translated set, returned = receiver, move back restores it, and after ANY list of moves it equals one move by the sum (induction). ConvexPolygon: vertices translated in order, the recomputed plane keeps validity, membership / edge lengths / area invariant, histories, and returned == receiver (kernel K6: re-sorting a counter-clockwise cycle is the identity). ConvexPolyhedron: the move of a Valid body succeeds, returned = receiver, the result is Valid and its membership test is the translated one. Decided per run: histories of 1-6 moves with deepcopy interleaved, receiver and returned object against a fresh object over membership, intersection (incl. probes through the old position and coplanar probes), distance, angle, measures, ==, hash.',
              ref='DESIGN.md §5 C07'),
  'C08': dict(tech='Lean 4 iff-theorems (== ⇔ same set ⇔ same hash key) for the five flat types + extracted isinstance guards + correspondence over alternative representations',
              text='PROOF (partial): for Line, Plane, Segment, HalfLine (and Point/Vector) == holds iff the objects denote the same set iff the exact hash keys of the CURRENT __hash__ agree (so a==b ⇒ hash equal, and different sets ⇒ unequal); reflexive, symmetric; isinstance guards of __eq__ extracted and decided. ConvexPolygon/ConvexPolyhedron: == is hash equality in the code; "same set ⇔ equal" is decided per run over shuffled/duplicated vertex and face orders and near-miss shapes.',
@@ -53,7 +53,7 @@ P = {
              text='PROOF (partial): result ⊆ a ∩ b is proved for ALL 49 type pairs (every vertex and every point of the result lies in both operands); for flats associativity (both nestings denote exactly a∩b∩c, None absorbing), intersection(a,a)=a and a⊆b ⇒ intersection=a are theorems about the table-driven dispatcher, plus the mixed chain (a∩b)∩P. Self/subset/associativity with polygon or polyhedron operands need completeness kernels and are decided per run on all 343 type triples against the exact triple intersection (vertex enumeration).',
              ref='DESIGN.md §5 C12'),
  'C09': dict(tech='Lean 4 theorems on the constructors (guarantees of a successful construction, translation equivariance) + Lean validity judge on every constructed object',
-             text='PROOF (partial only for polyhedra): kernel K6 is proved — whatever the order and repetitions of the input, distinct coplanar points in strictly convex position are accepted and yield the Valid counter-clockwise cycle on exactly those points; -p is Valid about the reversed normal with the reversed cycle and -(-p) has p\'s cycle and normal direction; constructor commutes with translations. ConvexPolyhedron: every stored face oriented away from the centre, Euler, centre = vertex mean, centre inside; that the result is a Valid closed body is judged per constructed object by the Lean decision procedure (proved sound: validB ⇒ Valid ⇒ membership = hull). Correspondence: permuted / duplicated polygons, re-oriented shuffled polyhedra, -p, -(-p), fed-back sections, compared with the model constructor and the exact hull.',
+             text='PROOF (full relative to a Valid reference body): kernel K6 is proved — whatever the order and repetitions of the input, distinct coplanar points in strictly convex position are accepted and yield the Valid counter-clockwise cycle on exactly those points; -p is Valid about the reversed normal with the reversed cycle and -(-p) has p\'s cycle and normal direction; constructor commutes with translations. ConvexPolyhedron: given the faces of a Valid body in ANY order, with ANY start vertex and EITHER orientation, the constructor succeeds and stores a Valid body with every face outward, the same vertices and edges, Euler, centre = vertex mean strictly inside, and the same membership test (= hull of the vertices); a permuted face list gives the same centre, vertices, membership and volume. That a given face list is that of a Valid body is judged per constructed object by the Lean decision procedure (proved sound: validB ⇒ Valid ⇒ membership = hull). Correspondence: permuted / duplicated polygons, re-oriented shuffled polyhedra, -p, -(-p), fed-back sections, compared with the model constructor and the exact hull.',
              ref='DESIGN.md §5 C09'),
  'C13': dict(tech='Lean 4 theorems (48 signed permutations: dot/cross laws, membership and flat intersection equivariance, bijectivity) + metamorphic correspondence',
              text='PROOF (partial only for intersection results of polygons/polyhedra): for all 48 signed permutations, translations and k>0: dot/cross laws (determinant factor), membership tests of every type incl. polygons and polyhedra commute, flat intersection is equivariant, angle/parallel/orthogonal and == are invariant, squared distance scales by k^2 (all documented pairs), lengths by k, polygon area by k^2 (Valid preserved under reflections with the pseudo-vector normal), polyhedron volume and the volume of any closed surface by k^3. Constructor commutation and intersection with polygon/polyhedron operands are decided per run metamorphically (49 type pairs under random symmetries/translations/scalings).',
